@@ -129,7 +129,7 @@ let h_loader args = match args with
     let mmsgs = match model with LoadErr e -> load_err_msgs e | _ -> [] in
     let checks = match dec_impl_load impl with
       | Either.Left p ->
-        [chk "C09" (c09_checkb p); chk "C10" (c10_checkb d p); chk "C11" (c11_accept_ok d p);
+        [chk "C09" (c09_checkb p); chk "C10" (c10_judgeb d p); chk "C11" (c11_accept_judgeb d p);   (* judges: props/Exact5.v, Exact6.v *)
          chk "C12" (c12_listing_checkb p && c12_classify_checkb p)]       (* the property-exact judges (props/Exact5.v) *)
       | Either.Right (Some e) -> [chk "C11" (c11_error_okw d e)]
       | Either.Right None -> [chk "C11" false] in
